@@ -556,7 +556,7 @@ func runC20(r *core.Run) {
 			return core.Outcome{Class: "ok", Nontrivial: true}
 		})
 
-	core.Clause(r, "readncbi-corruptions", core.Opts{Rule: "every single-token corruption of the layout tables (with 0 or 1 layout deviation from {crlf, nofinal, a comment line}): a row value removed, an extra row value, a header column removed/added, each score replaced by x / 1..2 / --1 / 1,5 and by 23 more texts that are not a number (a bare '-' or '+', '.', '-.', e5, 1e, 1e+, 0x, 0x1, non-ASCII digits, +-1, 1-, 1.2.3, 5%, (1), 1 NUL, 2f, 1d, quoted, 1/2, 0h), each label (header and row) replaced by AB: the result is (nil, error); non-trivial = all"},
+	core.Clause(r, "readncbi-corruptions", core.Opts{Rule: "every single-token corruption of the layout tables (with 0 or 1 layout deviation from {crlf, nofinal, a comment line}): a row value removed, an extra row value, one surplus token (#, #7, #x, ;, //, //x, *, !, %, a label, a number, 0.0, -) inserted at every place among the values of every row, a header column removed/added, each score replaced by x / 1..2 / --1 / 1,5 and by 23 more texts that are not a number (a bare '-' or '+', '.', '-.', e5, 1e, 1e+, 0x, 0x1, non-ASCII digits, +-1, 1-, 1.2.3, 5%, (1), 1 NUL, 2f, 1d, quoted, 1/2, 0h), each label (header and row) replaced by AB: the result is (nil, error); non-trivial = all"},
 		func(emit func(ncbiTable) bool) {
 			for _, base := range layoutTables {
 				lines := base.tokens()
@@ -586,6 +586,16 @@ func runC20(r *core.Run) {
 							emit(t)
 							t.Corr = fmt.Sprintf("row-value-added:%d:0", li)
 							emit(t)
+							// one surplus token of any kind, at any place among the values: whatever a lenient reader might
+							// take for a trailing comment, a terminator or an annotation is a surplus value here
+							for tok := range surplusTokens {
+								for at := 1; at <= len(toks); at++ {
+									t.Corr = fmt.Sprintf("row-token-inserted=%s:%d:%d", tok, li, at)
+									if !emit(t) {
+										return
+									}
+								}
+							}
 						} else {
 							if len(toks) >= 2 {
 								t.Corr = "header-column-removed:0:0"
@@ -609,6 +619,9 @@ func runC20(r *core.Run) {
 			l := append([]string(nil), lines[li]...)
 			if name, ok := strings.CutPrefix(kind, "scoretext="); ok {
 				l[ti] = scoreSpellings[name]
+			}
+			if name, ok := strings.CutPrefix(kind, "row-token-inserted="); ok {
+				l = append(append(append([]string(nil), l[:ti]...), surplusTokens[name]), l[ti:]...)
 			}
 			switch kind {
 			case "label-AB":
@@ -974,3 +987,6 @@ func runC20(r *core.Run) {
 		})
 	_ = sort.Strings
 }
+
+// surplusTokens: one more token in a row than the header has columns, whatever it looks like.
+var surplusTokens = map[string]string{"hash": "#", "hash-digit": "#7", "hash-word": "#x", "semicolon": ";", "slashes": "//", "slashes-word": "//x", "star": "*", "bang": "!", "percent": "%", "label": "A", "number": "7", "zero": "0.0", "minus": "-"}
